@@ -7,6 +7,7 @@
 #include <errno.h>
 #include <fcntl.h>
 #include <pthread.h>
+#include <signal.h>
 #include <stdatomic.h>
 #include <stdint.h>
 #include <stdio.h>
@@ -570,6 +571,24 @@ c10_program(size_t bi) {
 	atomic_fetch_add(&g10_called, 1);
 }
 static void *c10_ext_thread(void *arg) { c10_program((size_t)(uintptr_t)arg); return (NULL); }
+/* signal storm against the external callers: a handled signal interrupts whatever sleep the library is in */
+static void c10_sig_noop(int s) { (void)s; }
+static pthread_t g10_ext_thr[C10_MAX_BCASTS];
+static atomic_int g10_ext_live[C10_MAX_BCASTS];
+static atomic_int g10_sig_run;
+static void *
+c10_sig_thread(void *arg) {
+	size_t i;
+	(void)arg;
+	while (0 != atomic_load(&g10_sig_run)) {
+		for (i = 0; i < C10_MAX_BCASTS; i ++) {
+			if (0 != atomic_load(&g10_ext_live[i]))
+				pthread_kill(g10_ext_thr[i], SIGUSR1);
+		}
+		usleep(400);
+	}
+	return (NULL);
+}
 static void c10_pool_caller_cb(tpt_p tpt, void *udata) { (void)tpt; c10_program((size_t)(uintptr_t)udata); }
 
 void
@@ -579,6 +598,7 @@ c10_run(const c10_scn *scn, c10_out *out) {
 	size_t i;
 	uint32_t expect_done = 0, k;
 	int need_foreign = 0;
+	pthread_t sig_thr;
 
 	memset(out, 0, sizeof(*out));
 	memset(ext_used, 0, sizeof(ext_used));
@@ -625,15 +645,32 @@ c10_run(const c10_scn *scn, c10_out *out) {
 		if (in_pool && 0 == tpt_msg_send(tp_thread_get(g10_tp, b->pool_idx % scn->nthreads), NULL, 0,
 		    c10_pool_caller_cb, (void *)(uintptr_t)i))
 			continue;
-		if (0 == pthread_create(&ext[i], NULL, c10_ext_thread, (void *)(uintptr_t)i))
+		if (0 == pthread_create(&ext[i], NULL, c10_ext_thread, (void *)(uintptr_t)i)) {
 			ext_used[i] = 1;
-		else
+			g10_ext_thr[i] = ext[i];
+			atomic_store(&g10_ext_live[i], 1);
+		} else
 			atomic_fetch_add(&g10_called, 1);
+	}
+	if (scn->signals) {
+		struct sigaction sa;
+		memset(&sa, 0, sizeof(sa));
+		sa.sa_handler = c10_sig_noop;
+		sa.sa_flags = SA_RESTART;
+		sigaction(SIGUSR1, &sa, NULL);
+		atomic_store(&g10_sig_run, 1);
+		if (0 != pthread_create(&sig_thr, NULL, c10_sig_thread, NULL))
+			atomic_store(&g10_sig_run, 0);
 	}
 	tp_harness_arm();
 	atomic_store(&g10_go, 1);
 	out->hang |= tp_wait_until(&g10_called, scn->nbcasts, CEIL_MS);
+	if (0 != atomic_load(&g10_sig_run)) {
+		atomic_store(&g10_sig_run, 0);
+		pthread_join(sig_thr, NULL);
+	}
 	for (i = 0; i < scn->nbcasts; i ++) {
+		atomic_store(&g10_ext_live[i], 0);
 		if (ext_used[i])
 			pthread_join(ext[i], NULL);
 	}
